@@ -59,6 +59,11 @@ func main() {
 		{"IndexTopGen.v", genIndexTop},
 		{"TmsJsonGen.v", genTmsJson},
 		{"SnapTopGen.v", genSnapTop},
+		{"RingHelpersGen.v", genRingHelpers},
+		{"QuadTreeGen.v", genQuadTree},
+		{"GpkgWriterGen.v", genGpkgWriter},
+		{"GpkgSchemaGen.v", genGpkgSchema},
+		{"TmsAddrGen.v", genTmsAddr},
 	}
 	failed := false
 	for _, g := range gens {
